@@ -1,0 +1,47 @@
+//go:build verif
+
+// Contracts for gvc (/verif). Comment-only: this file adds no declarations.
+
+package term
+
+// C34: the wrapping buffer builder never lets a line grow past Width.
+// Widths come from pkg/wcwidth: pw(s, len(s)) is the display width of s and
+// ofrune(r) the width of one rune (see pkg/wcwidth/zz_verif_contracts.go).
+
+// Assumption about the width table (true without user overrides): every rune
+// is at most 2 columns wide and ASCII is at most 1 column wide.
+//@ spec fn widthsok() bool = forall r rune :: 0 <= ofrune(r) && ofrune(r) <= 2 && (0 <= r && r < 128 ==> ofrune(r) <= 1)
+
+//@ func BufferBuilder.appendLine
+//@   props C34
+//@   requires 0 <= bb.Width && bb.Width <= 1073741824
+//@   ensures bb.Col == 0 && len(bb.Lines) == old(len(bb.Lines)) + 1
+//@   ensures bb.Width == old(bb.Width) && bb.Indent == old(bb.Indent) && bb.EagerWrap == old(bb.EagerWrap)
+
+//@ func BufferBuilder.appendCell
+//@   props C34
+//@   requires len(bb.Lines) >= 1 && 0 <= bb.Col && bb.Col <= 2147483648
+//@   ensures bb.Col == old(bb.Col) + pw(c.Text, len(c.Text))
+//@   ensures len(bb.Lines) == old(len(bb.Lines))
+//@   ensures bb.Width == old(bb.Width) && bb.Indent == old(bb.Indent) && bb.EagerWrap == old(bb.EagerWrap)
+
+//@ func BufferBuilder.Newline
+//@   props C34
+//@   requires widthsok()
+//@   requires 0 <= bb.Width && bb.Width <= 1073741824 && bb.Indent <= 1073741824
+//@   loop 1 apply pw_zero(" ")
+//@   loop 1 apply bd_zero(" ")
+//@   loop 1 apply pw_step(" ", 0)
+//@   loop 1 invariant 0 <= i && i <= bb.Indent && 0 <= bb.Col && bb.Col <= i && len(bb.Lines) >= 1 && bb.Width == old(bb.Width) && bb.Indent == old(bb.Indent) && bb.EagerWrap == old(bb.EagerWrap)
+//@   ensures 0 <= bb.Col && bb.Col <= (bb.Indent > 0 ? bb.Indent : 0) && len(bb.Lines) >= 1
+//@   ensures bb.Width == old(bb.Width) && bb.Indent == old(bb.Indent) && bb.EagerWrap == old(bb.EagerWrap)
+
+//@ func BufferBuilder.WriteRuneSGR
+//@   props C34
+//@   requires widthsok()
+//@   requires bb.Width >= 2 && 0 <= bb.Indent && bb.Indent + 2 <= bb.Width && bb.Width <= 1073741824
+//@   requires 0 <= bb.Col && bb.Col <= bb.Width && len(bb.Lines) >= 1
+//@   requires 0 <= r
+//   the cursor column never passes the right edge, whatever rune is written
+//@   ensures 0 <= bb.Col && bb.Col <= bb.Width && len(bb.Lines) >= 1
+//@   ensures bb.Width == old(bb.Width) && bb.Indent == old(bb.Indent)
